@@ -1366,7 +1366,7 @@ func (r *replicateChannelHandler) startReadChannel() {
 				return
 			case replicateMsg := <-r.forwardPackChan:
 				r.innerHandleReplicateMsg(true, replicateMsg)
-				GreedyConsumeChan(r.generatePackChan, true, r.innerHandleReplicateMsg)
+				GreedyConsumeChan(r.forwardPackChan, true, r.innerHandleReplicateMsg)
 			case replicateMsg := <-r.generatePackChan:
 				r.innerHandleReplicateMsg(false, replicateMsg)
 				GreedyConsumeChan(r.generatePackChan, false, r.innerHandleReplicateMsg)
